@@ -1,7 +1,7 @@
 # property -> units, unit -> engine.  (DESIGN.md section 2.1)
 UNITS = {
     "health": dict(engine="verus", serves=["C20"]),
-    "authz": dict(engine="verus", serves=["C02", "C11"]),
+    "authz": dict(engine="verus", serves=["C02", "C11", "C13"]),
     "handler": dict(engine="verus", serves=["C01", "C03", "C05", "C10", "C11", "C14", "C15"]),
     "disk": dict(engine="verus", serves=["C19"]),
     "provision": dict(engine="verus", serves=["C16"]),
@@ -9,14 +9,14 @@ UNITS = {
     "setup": dict(engine="verus", serves=["C17"]),
     "panics": dict(engine="verus", serves=["C13"]),
     "panic_bytes": dict(engine="kani", serves=["C13", "C14"], path="kani/panic_bytes", kind="Kani harnesses over verbatim byte-level slices (bounded UTF-16 frame; full-domain byte map)"),
-    "conn":   dict(engine="verus", serves=["C07"]),
-    "actors": dict(engine="verus", serves=["C09", "C10", "C11"]),
+    "conn":   dict(engine="verus", serves=["C07", "C13"]),
+    "actors": dict(engine="verus", serves=["C09", "C10", "C11", "C13"]),
     "sign": dict(engine="verus", serves=["C04", "C10", "C13"]),
-    "keystore":  dict(engine="verus", serves=["C08"]),
+    "keystore":  dict(engine="verus", serves=["C08", "C13"]),
     "keykeeper": dict(engine="verus", serves=["C08", "C09", "C13"]),
     "ebpf_c":  dict(engine="cbmc", serves=["C06"], path="c/ebpf", kind="CBMC function contracts (goto-instrument --dfcc) on the unmodified linux-ebpf/ebpf_cgroup.c against a contract-level model of the BPF helpers; gcc replay of counterexamples"),
     "ebpf_rs": dict(engine="kani", serves=["C06"], path="kani/ebpf_rs", kind="Kani full-domain harnesses over the real ebpf_obj.rs (#[path]) and byte-for-byte extracted redirector items; layout table shared with the C side"),
-    "authorizer": dict(engine="verus", serves=["C03", "C11", "C01"]),
+    "authorizer": dict(engine="verus", serves=["C03", "C11", "C01", "C13"]),
 }
 
 PROPERTIES = {
@@ -177,7 +177,7 @@ PROPERTIES["C15"] = dict(
 )
 
 PROPERTIES["C13"] = dict(
-    units=["panics", "panic_bytes", "handler", "provision", "telemetry", "disk", "sign", "keykeeper"],
+    units=["panics", "panic_bytes", "handler", "provision", "telemetry", "disk", "sign", "keykeeper", "authz", "authorizer", "conn", "actors", "keystore"],
     technique="Verus' own safety obligations (str/String slicing on a char boundary, String::truncate, index, arithmetic overflow, unwrap/stub preconditions) on every function under contract; Kani for the byte-level UTF-16 slice",
     level_text='For the functions under contract (listed in the evidence; not the whole program): Verus discharges for all inputs that no slice/truncate is off a char boundary (event_logger::write_event, AgentStatusSharedState::get_module_status, ProxyServer::log_connection_summary after the fixes), no arithmetic overflow, no out-of-range index and no failing stub precondition in the request handler, provisioning, telemetry and logging units; Kani checks the UTF-16 frame conversion of read_response_body for every frame of up to 5 bytes (bounded companion, not counted as proved).',
     level_note="Partial claim: only the functions under contract; panics inside dependencies, the accept loop, main and Windows code are not covered. UTF-8 byte model of String (utf8_len/char_boundary, linked to vstd's by trusted axioms). 'Display does not panic' axioms per displayed type. Known C13-labelled preconditions in other units (headers_to_canonicalized_string value is visible ASCII; key keeper sleep arithmetic) are reported by those units.",
